@@ -39,8 +39,12 @@ BODIES = {
     "until": "until false\n  x += 1",
     "for_generator": "for v in endless()\n  x += v",
     "for_native_iter": "for v in iterator.repeat(1)\n  x += v",
-    "recursion": "r = |n| r(n + 1)\nr 0",
-    "mutual_recursion": "rec = {}\nrec.a = |n| rec.b(n + 1)\nrec.b = |n| rec.a(n + 1)\nrec.a 0",
+    # unbounded recursion: every call does some work first, so that the call stack reached within the limit stays
+    # shallow (a few thousand frames): unwinding / freeing a very deep stack takes time proportional to its depth
+    # and, like native stack or memory exhaustion, is outside the property
+    "recursion": "r = |n|\n  for i in 0..300\n    x = i\n  r(n + 1)\nr 0",
+    "mutual_recursion": "rec = {}\nrec.a = |n|\n  for i in 0..300\n    x = i\n  rec.b(n + 1)\n"
+                        "rec.b = |n|\n  for i in 0..300\n    x = i\n  rec.a(n + 1)\nrec.a 0",
     "loop_calling_fn": "h = |a| a + 1\nloop\n  x = h x",
     "loop_with_inner_catch": "loop\n  try\n    throw 'e'\n  catch err\n    x += 1",
 }
@@ -95,8 +99,8 @@ def slack_ms(limit, shape=""):
     # generous on purpose: the machine is shared.  Unbounded recursion additionally has to unwind (and free) a call
     # stack whose depth is proportional to the limit before the error is returned; that work is outside the timer logic
     if "recursion" in shape:
-        return max(15000, 30 * limit)
-    return max(1000, 3 * limit)
+        return max(5000, 5 * limit)
+    return max(2000, 3 * limit)
 
 
 def gen_cases(tier, seed):
@@ -503,7 +507,7 @@ def run(tier, seed):
     tb = ["Coq 8.16.1 kernel (coqc); vm_compute for evaluating the model",
           "axioms reported by Print Assumptions: " + (", ".join(axioms) if axioms else "none (closed under the global context)"),
           "tools/k2v_rt.py (region extraction from vm.rs); rustc for the scripted-clock driver",
-          "kh_rt (Rust harness), checks/c08.py (shapes, D-predicates, slack = max(1 s, 3 x limit))"]
+          "kh_rt (Rust harness), checks/c08.py (shapes, D-predicates, slack = max(2 s, 3 x limit); recursion shapes max(5 s, 5 x limit))"]
     return chk.finish(
         rule="non-terminating shapes = 9 bodies x 12 placements x 4 catch arrangements, each with a limit from "
              "{20..1000} ms (quick: one limit per shape, rotating with the seed; thorough: all limits {20..2000}); terminating "
